@@ -16,7 +16,8 @@ def load_findings(pid):
 def match_finding(entry, feats):
     """An entry matches when all its required features are present in the case."""
     need = entry.get("match", {}).get("all", [])
-    return bool(need) and all(x in feats for x in need)
+    absent = entry.get("match", {}).get("none", [])
+    return bool(need) and all(x in feats for x in need) and not any(x in feats for x in absent)
 
 
 class Reporter:
@@ -25,7 +26,7 @@ class Reporter:
         self.tier = tier
         self.level = level
         self.t0 = time.time()
-        self.findings = load_findings(pid)
+        self.findings = [] if os.environ.get("VERIF_NOKF") else load_findings(pid)     # VERIF_NOKF: development aid (triage of listed findings)
         self.hit = {}            # finding id -> count
         self.violations = []     # replay paths
         self.samples = []
